@@ -111,6 +111,21 @@ def _ehep_init():
                       source=EHEP + ':EscapeOfHEProducts.__init__ (ttilde, polygon corners)')
 
 
+@target('EHEPOnLine', ['detonation', 'ehep'], deriv=None)
+def _ehep_on_line():
+    """`point_on_line(corners, point, tol)`: the closed-boundary test of the region selection, for one polygon
+    edge (ax, at) -> (bx, bt) and the point (x, t); `math.hypot` is traced as sqrt(x*x + y*y).  Field `on_line`
+    is 1 when the test says "on the edge"."""
+    _, cls = load(EHEP + ':EscapeOfHEProducts')
+
+    def run():
+        s = cls.__new__(cls)
+        r = s.point_on_line(((S('ax'), S('at')), (S('bx'), S('bt'))), (S('x'), S('t')), S('tol'))
+        return 1.0 if r else 0.0
+    return trace_func('EHEPOnLine', run, [], ['on_line'], modules=[EHEP], pvars=('x',), tvar='t',
+                      source=EHEP + ':EscapeOfHEProducts.point_on_line')
+
+
 # --------------------------------------------------------------------------
 # Mader
 # --------------------------------------------------------------------------
